@@ -258,9 +258,17 @@ class Aspire:
         if checkpoint_path is not None:
             with AspireFile(checkpoint_path, "a") as h5_file:
                 if checkpoint_save_config and not saved_config:
+                    config = self.config_dict(include_sampler_config=False)
                     if "aspire_config" in h5_file:
+                        # Fitting does not change which sampler wrote the
+                        # checkpoint stored in this file
+                        previous = load_from_h5_file(h5_file, "aspire_config")
+                        if "sampler_type" in previous:
+                            config["sampler_type"] = previous["sampler_type"]
                         del h5_file["aspire_config"]
-                    self.save_config(h5_file, include_sampler_config=False)
+                    recursively_save_to_h5_file(
+                        h5_file, "aspire_config", config
+                    )
                     if defaults is not None:
                         defaults["saved_config"] = True
                 # Save flow only if missing or overwrite=True
